@@ -11,7 +11,7 @@ From WebP Require Import Lib.Res Lib.Arr Model.AlphaBlend Model.Anim Spec.Anim
   Proofs.Anim_play Proofs.Anim_history Properties.C06.
 From WebP Require Spec.Container Spec.Anim Model.AlphaBlend Model.Anim Model.ReadImage Model.ReadImageOps Model.Vp8Decode
   Proofs.Container_bytes Proofs.Anim_play Proofs.Anim_history Proofs.ReadImage_anim Proofs.ReadImage_ops
-  Proofs.VP8_decode_readimage Proofs.ReadImage_ops_closed.
+  Proofs.VP8_decode_readimage Proofs.ReadImage_ops_closed Proofs.Container_fits.
 Import ListNotations.
 Open Scope Z_scope.
 
@@ -80,31 +80,28 @@ Module H.
   Theorem run_ops_from_file :
     forall (vp8 : list Z -> res (Z * Z * list Z * list Z * list Z)) (c : container) (ms : list Model.Anim.mframe),
       wf c = true -> anim c = true -> Forall2 (frame_decodes vp8 (fst (dims c)) (snd (dims c))) (frames c) ms ->
-      fst (dims c) * snd (dims c) * 4 < 4294967296 ->
       Anim_play.valid_file (anim_file c ms) /\
       exists dec, Container_bytes.M.new (serialize c) = Ok dec /\
         forall ops buf, len buf = buffer_size c ->
           ReadImageOps.run_ops vp8 dec ops (initial_fstate dec) buf
           = map conv (Model.Anim.run_ops (anim_file c ms) ops Model.Anim.fresh_state buf).
-  Proof. exact ReadImage_ops.run_ops_from_file. Qed.
+  Proof. intros vp8 c ms Hwf Ha HF. exact (ReadImage_ops.run_ops_from_file vp8 c ms Hwf Ha HF (Container_fits.wf_canvas_fits c Hwf)). Qed.
 
   (* history_independent from the file bytes: the trace is that of the playback cursor over what a fresh decoder shows *)
   Theorem history_independent_from_file :
     forall (vp8 : list Z -> res (Z * Z * list Z * list Z * list Z)) (c : container) (ms : list Model.Anim.mframe),
       wf c = true -> anim c = true -> Forall2 (frame_decodes vp8 (fst (dims c)) (snd (dims c))) (frames c) ms ->
-      fst (dims c) * snd (dims c) * 4 < 4294967296 ->
       exists dec, Container_bytes.M.new (serialize c) = Ok dec /\
         forall ops buf, len buf = buffer_size c ->
           ReadImageOps.run_ops vp8 dec ops (initial_fstate dec) buf
           = map conv (Anim_history.trace_of
                         (Spec.Anim.cursor_run (Anim_history.kshown (anim_file c ms)) (map Anim_history.op_of ops) 0 buf)).
-  Proof. exact ReadImage_ops.history_independent_from_file. Qed.
+  Proof. intros vp8 c ms Hwf Ha HF. exact (ReadImage_ops.history_independent_from_file vp8 c ms Hwf Ha HF (Container_fits.wf_canvas_fits c Hwf)). Qed.
 
   (* the three clauses (frames after reset = a fresh playback; read_image = first frame, position unchanged; exhausted = NoMoreFrames, buffer untouched) *)
   Theorem clauses_from_file :
     forall (vp8 : list Z -> res (Z * Z * list Z * list Z * list Z)) (c : container) (ms : list Model.Anim.mframe),
       wf c = true -> anim c = true -> Forall2 (frame_decodes vp8 (fst (dims c)) (snd (dims c))) (frames c) ms ->
-      fst (dims c) * snd (dims c) * 4 < 4294967296 ->
       exists dec, Container_bytes.M.new (serialize c) = Ok dec /\
         forall ops buf i, len buf = buffer_size c ->
           let F := anim_file c ms in
@@ -119,7 +116,7 @@ Module H.
           /\ (nth_error ops i = Some Model.Anim.MFrame -> Anim_history.position F (firstn i ops) = length ms ->
               exists b, nth_error tr i = Some (RoFrame (Err ENoMoreFrames), b)
                         /\ b = Anim_history.buffer_before (Model.Anim.run_ops F ops Model.Anim.fresh_state buf) i buf).
-  Proof. exact ReadImage_ops.clauses_from_file. Qed.
+  Proof. intros vp8 c ms Hwf Ha HF. exact (ReadImage_ops.clauses_from_file vp8 c ms Hwf Ha HF (Container_fits.wf_canvas_fits c Hwf)). Qed.
 End H.
 
 (* ---------------- the same with the frame decoder closed (C02): vp8 := Model.Vp8Decode.decode_frame ---------------- *)
@@ -129,29 +126,26 @@ Module HC.
   Theorem run_ops_from_file_closed :
     forall (c : container) (ms : list Model.Anim.mframe),
       wf c = true -> anim c = true -> Forall2 (frame_decodes_spec (fst (dims c)) (snd (dims c))) (frames c) ms ->
-      fst (dims c) * snd (dims c) * 4 < 4294967296 ->
       Anim_play.valid_file (anim_file c ms) /\
       exists dec, Container_bytes.M.new (serialize c) = Ok dec /\
         forall ops buf, len buf = buffer_size c ->
           ReadImageOps.run_ops Model.Vp8Decode.decode_frame dec ops (initial_fstate dec) buf
           = map conv (Model.Anim.run_ops (anim_file c ms) ops Model.Anim.fresh_state buf).
-  Proof. exact ReadImage_ops_closed.run_ops_from_file_closed. Qed.
+  Proof. intros c ms Hwf Ha HF. exact (ReadImage_ops_closed.run_ops_from_file_closed c ms Hwf Ha HF (Container_fits.wf_canvas_fits c Hwf)). Qed.
 
   Theorem history_independent_from_file_closed :
     forall (c : container) (ms : list Model.Anim.mframe),
       wf c = true -> anim c = true -> Forall2 (frame_decodes_spec (fst (dims c)) (snd (dims c))) (frames c) ms ->
-      fst (dims c) * snd (dims c) * 4 < 4294967296 ->
       exists dec, Container_bytes.M.new (serialize c) = Ok dec /\
         forall ops buf, len buf = buffer_size c ->
           ReadImageOps.run_ops Model.Vp8Decode.decode_frame dec ops (initial_fstate dec) buf
           = map conv (Anim_history.trace_of
                         (Spec.Anim.cursor_run (Anim_history.kshown (anim_file c ms)) (map Anim_history.op_of ops) 0 buf)).
-  Proof. exact ReadImage_ops_closed.history_independent_from_file_closed. Qed.
+  Proof. intros c ms Hwf Ha HF. exact (ReadImage_ops_closed.history_independent_from_file_closed c ms Hwf Ha HF (Container_fits.wf_canvas_fits c Hwf)). Qed.
 
   Theorem clauses_from_file_closed :
     forall (c : container) (ms : list Model.Anim.mframe),
       wf c = true -> anim c = true -> Forall2 (frame_decodes_spec (fst (dims c)) (snd (dims c))) (frames c) ms ->
-      fst (dims c) * snd (dims c) * 4 < 4294967296 ->
       exists dec, Container_bytes.M.new (serialize c) = Ok dec /\
         forall ops buf i, len buf = buffer_size c ->
           let F := anim_file c ms in
@@ -166,5 +160,5 @@ Module HC.
           /\ (nth_error ops i = Some Model.Anim.MFrame -> Anim_history.position F (firstn i ops) = length ms ->
               exists b, nth_error tr i = Some (RoFrame (Err ENoMoreFrames), b)
                         /\ b = Anim_history.buffer_before (Model.Anim.run_ops F ops Model.Anim.fresh_state buf) i buf).
-  Proof. exact ReadImage_ops_closed.clauses_from_file_closed. Qed.
+  Proof. intros c ms Hwf Ha HF. exact (ReadImage_ops_closed.clauses_from_file_closed c ms Hwf Ha HF (Container_fits.wf_canvas_fits c Hwf)). Qed.
 End HC.
